@@ -40,4 +40,4 @@ def finding_key(name, small, f):
 # coverage-guided exploration (bin/explore.py): None = off; dict(ops=operations that may be mutated / duplicated / removed,
 # mtu=True to vary the MTU of cfg lines inside [576,9216], skip=regex of scenario names whose oracle depends on their exact shape)
 EXPLORE = None
-EXPLORE_SECONDS = (10, 180)     # quick, thorough
+EXPLORE_SECONDS = (10, 120)     # quick, thorough (x 500 mutants)
